@@ -48,7 +48,7 @@ def confirm(wid, name):
     res["demo_passes_without_change"] = r.returncode == 0
     sh(f"git apply {patch}", cwd=wt)
     # existing suite with the change, demo moved aside
-    untracked = [l[3:] for l in sh("git status --porcelain", cwd=wt).stdout.splitlines() if l.startswith("??") and l[3:].endswith(".rs")]
+    untracked = [l[3:] for l in sh("git status --porcelain -uall", cwd=wt).stdout.splitlines() if l.startswith("??") and l[3:].endswith(".rs")]
     aside = []
     for u in untracked:
         p = os.path.join(wt, u)
